@@ -31,11 +31,113 @@ fn alpha(tx: bool) -> Alpha {
 
 const PROBES: [&str; 6] = ["ins x.a=2", "rem x.ab", "clear y", "batch [x.b=1 y.a=1]", "persist Buffer", "persist SyncAll"];
 
+// ------------------------------------------------------------------ E3: several writer threads
+pub struct FaultBody {
+    pub name: &'static str,
+    /// the k-th journal operation after the threads start fails
+    pub fail_at: i64,
+    pub writers: usize,
+}
+
+fn shim_arm(k: i64, errno: i32) -> bool {
+    type ArmFn = unsafe extern "C" fn(libc::c_long, libc::c_int);
+    unsafe {
+        let sym = libc::dlsym(libc::RTLD_DEFAULT, b"fjallfs_arm_fail\0".as_ptr().cast());
+        if sym.is_null() {
+            return false;
+        }
+        let f: ArmFn = std::mem::transmute(sym);
+        f(k as libc::c_long, errno);
+        true
+    }
+}
+
+fn shim_disarm() {
+    type F = unsafe extern "C" fn();
+    unsafe {
+        let sym = libc::dlsym(libc::RTLD_DEFAULT, b"fjallfs_disarm\0".as_ptr().cast());
+        if !sym.is_null() {
+            let f: F = std::mem::transmute(sym);
+            f();
+        }
+    }
+}
+
+impl crate::e3::Body for FaultBody {
+    fn name(&self) -> String {
+        self.name.to_string()
+    }
+    fn launch(&self, dir: &std::path::Path) -> crate::e3::Launched {
+        use crate::sched::*;
+        use std::sync::atomic::{AtomicUsize, Ordering};
+        use std::sync::Arc;
+        let db = fjall::Database::builder(dir).worker_threads_unchecked(0).open().expect("open");
+        let ks = db.keyspace("x", fjall::KeyspaceCreateOptions::default).expect("ks");
+        ks.insert("base", "0").expect("prep");
+        let armed = shim_arm(self.fail_at, 5);
+        let n = self.writers;
+        let done = Arc::new(AtomicUsize::new(0));
+        // (thread, call, ret, ok)
+        let log: Arc<Mutex<Vec<(usize, u64, u64, bool)>>> = Arc::new(Mutex::new(vec![]));
+        let mut handles = vec![];
+        const NAMES: [&str; 3] = ["writer0", "writer1", "writer2"];
+        const KEYS: [&str; 3] = ["a", "b", "c"];
+        for t in 0..n {
+            let (ks, done, log) = (ks.clone(), done.clone(), log.clone());
+            handles.push(spawn_client(NAMES[t], move || {
+                let call = sched().now();
+                client_point("client.call");
+                let ok = ks.insert(KEYS[t], "1").is_ok();
+                let ret = sched().now();
+                log.lock().unwrap().push((t, call, ret, ok));
+                drop(ks);
+                done.fetch_add(1, Ordering::SeqCst);
+            }));
+        }
+        {
+            let done = done.clone();
+            handles.push(spawn_client("closer", move || {
+                client_block_until(&|| done.load(Ordering::SeqCst) == n, "closer.wait_clients");
+                shim_disarm();
+                drop(ks);
+                drop(db);
+            }));
+        }
+        let judge = Box::new(move |_dir: &std::path::Path| -> Result<String, Violation> {
+            if !armed {
+                return Err(Violation::new("machinery.shim_not_loaded", "fjallfs_arm_fail not found (LD_PRELOAD missing)"));
+            }
+            let log = log.lock().unwrap().clone();
+            let first_fail = log.iter().filter(|l| !l.3).map(|l| l.2).min();
+            if let Some(ff) = first_fail {
+                if let Some(bad) = log.iter().find(|l| l.3 && l.2 > ff) {
+                    return Err(Violation::new(
+                        "not_fail_stop.concurrent",
+                        format!("a journal write failed and was reported at step {ff}, yet writer{} was acknowledged afterwards (called at step {}, returned Ok at step {}): {:?}", bad.0, bad.1, bad.2, log),
+                    ));
+                }
+            }
+            Ok(format!("{:?}", log.iter().map(|l| l.3).collect::<Vec<_>>()))
+        });
+        crate::e3::Launched { handles, judge }
+    }
+}
+
+pub fn bodies(tier: &str) -> Vec<crate::e3::BodySpec> {
+    let q = tier == "quick";
+    let b = |body: FaultBody, bound: usize, secs: f64| crate::e3::BodySpec { body: std::sync::Arc::new(body), bound, secs };
+    let mut v = vec![b(FaultBody { name: "2 writers, 1st journal write fails", fail_at: 1, writers: 2 }, 2, if q { 5.0 } else { 120.0 })];
+    if !q {
+        v.push(b(FaultBody { name: "3 writers, 2nd journal write fails", fail_at: 2, writers: 3 }, 2, 200.0));
+    }
+    v
+}
+
 pub fn run(tier: &str) -> i32 {
     let t0 = Instant::now();
     let mut o = Outcome::new("C13", tier, "fault_enumeration");
     let q = tier == "quick";
-    let deadline = t0 + Duration::from_secs_f64(if q { 42.0 } else { 1100.0 });
+    let deadline = t0 + Duration::from_secs_f64(if q { 34.0 } else { 1100.0 });
     let d = Cfg::default2();
     let cfgs: Vec<(&str, Cfg, bool, usize)> = vec![
         ("auto-persist", d.clone(), false, if q { 2 } else { 3 }),
@@ -224,11 +326,22 @@ pub fn run(tier: &str) -> i32 {
     f.sort_by_key(|x| (x.sig.clone(), x.program.len(), x.variant["journal_op"].as_u64().unwrap_or(0)));
     o.findings = f;
     let _: BTreeSet<u8> = BTreeSet::new();
+    crate::e3::fold_e3(&mut o, "C13", tier, &bodies(tier), "e3_");
     o.wall_s = t0.elapsed().as_secs_f64();
     finish(o)
 }
 
 pub fn replay(v: &serde_json::Value) -> i32 {
+    if v["engine"] == "E3-schedcheck" {
+        println!("replay: E3 fault bodies need the shim: LD_PRELOAD=/verif/build/libfjallfs.so FJALLFS_ROOT=/dev/shm FJALLFS_MODE=log");
+        let tier = v["variant"]["tier"].as_str().unwrap_or("quick");
+        let bi = v["variant"]["body_index"].as_u64().unwrap_or(0) as usize;
+        let choices: Vec<usize> = v["variant"]["choices"].as_array().map(|a| a.iter().filter_map(|c| c.as_u64().map(|c| c as usize)).collect()).unwrap_or_default();
+        return match bodies(tier).get(bi) {
+            Some(b) => crate::e3::replay_schedule(&*b.body, &choices),
+            None => 2,
+        };
+    }
     let Some(cfg) = Cfg::from_spec(v["variant"]["cfg"].as_str().unwrap_or("")) else { return 2 };
     let ops: Vec<Op> = v["program"].as_array().map(|a| a.iter().filter_map(|s| s.as_str()).filter_map(|s| Op::parse(s).ok()).collect()).unwrap_or_default();
     let n = v["variant"]["journal_op"].as_u64().unwrap_or(1) as usize;
